@@ -958,5 +958,6 @@ def run(rep, prog, tier):
     for q, fn in sorted(m.funcs.items()):
         if 'from_phi' in q and 'phi' in func_params(fn):
             rule_lin(rep, m, fn, {'phi'}, prog=prog, what='the spectrum is a linear function of the density')
+            generic.rule_dtype(rep, m, fn, 'the spectrum is accumulated in float64 whatever array type carries the density (an integer-valued phi must not truncate the result)')
     rep.floor('R-ALG', 35)
     rep.floor('R-IDX', 40)
